@@ -303,3 +303,97 @@ func H_C03_makeForkIds(na int, nk int) {
 		verifAssert(found, "C03: every fork key is a key of the source map")
 	}
 }
+
+// ---- nested static forks whose inner key set depends on the outer fork ----
+
+const vcNestedMapSrc = `
+stage STAGE(
+    in  int  num,
+    src comp "mock",
+)
+
+pipeline INNER(
+    in  map<int> nums,
+)
+{
+    map call STAGE(
+        num = split self.nums,
+    )
+
+    return ()
+}
+
+map call INNER(
+    nums = split [
+        {
+            "only": 1,
+        },
+        {
+            "delta": 4,
+            "alpha": 1,
+            "charlie": 3,
+            "bravo": 2,
+        },
+        {
+            "zulu": 1,
+            "mike": 2,
+        },
+    ],
+)
+`
+
+type vcNestedMap struct {
+	ast   *syntax.Ast
+	forks syntax.ForkRootList
+}
+
+// H_C10_nestedForkIds: the fork identifiers of a map call whose source map is
+// an element of the array an enclosing pipeline is mapped over (static fork
+// expansion, ForkId.expandStaticForkPart), under an arbitrary iteration order
+// of every Go map touched while the identifiers are made.
+//
+//	C10/C03: the same identifiers in the same order whatever the iteration
+//	     order (the position in the list is the fork index recorded in the
+//	     pipestance), one per key of each outer element's map.
+func H_C10_nestedForkIds() {
+	fx := verifCached("vcNestedMap", func() any {
+		var parser syntax.Parser
+		_, _, ast, err := parser.ParseSourceBytes([]byte(vcNestedMapSrc), "/m/n.mro", nil, false)
+		if err != nil {
+			panic("fixture does not compile: " + err.Error())
+		}
+		graph, err := ast.MakePipelineCallGraph("", ast.Call)
+		if err != nil {
+			panic("fixture does not resolve: " + err.Error())
+		}
+		return &vcNestedMap{ast, graph.Children[0].ForkRoots()}
+	}).(*vcNestedMap)
+	// reference: the identifiers as made under the engine's fixed (insertion)
+	// iteration order
+	var ref ForkIdSet
+	ref.MakeForkIds(fx.forks, &fx.ast.TypeTable)
+	verifNondetMapOrder(true)
+	var ids ForkIdSet
+	ids.MakeForkIds(fx.forks, &fx.ast.TypeTable)
+	verifNondetMapOrder(false)
+	verifCover("nested fork ids enumerated")
+	want := []string{
+		"fork0/fork_only",
+		"fork1/fork_alpha", "fork1/fork_bravo", "fork1/fork_charlie", "fork1/fork_delta",
+		"fork2/fork_mike", "fork2/fork_zulu",
+	}
+	verifAssert(len(ids.List) == len(want) && len(ref.List) == len(want), "C03: one fork per key of each outer element's map")
+	seen := map[string]bool{}
+	for i, id := range ids.List {
+		s, err := id.ForkIdString()
+		verifAssert(err == nil, "every fork id has a name")
+		seen[s] = true
+		if i < len(ref.List) {
+			r, _ := ref.List[i].ForkIdString()
+			verifAssert(s == r, "C10: fork identifiers come in the same order (hence get the same fork index) whatever the map iteration order")
+		}
+	}
+	for _, w := range want {
+		verifAssert(seen[w], "C03: every key of every outer element's map has its fork")
+	}
+}
